@@ -358,7 +358,9 @@ pub fn gen_c05(r: &mut Rng, id: usize, thorough: bool) -> Group {
         let n = r.range(21, 70);
         let few: Vec<&str> = (0..r.range(3, 8)).map(|_| *r.pick(&edge)).collect();
         let items: Vec<&str> = (0..n).map(|_| *r.pick(&few)).collect();
-        let mut c = case(format!("C05-{id}"));
+        // (integers beyond 2^53 that collapse to one double are ties for jawk's order — outside C07's domain |n| < 2^53 —, and
+        //  which of them comes first is left to the implementation: these cases are judged on their OUTCOME, see `differs`)
+        let mut c = case(format!("C05-{id}-edgeorder"));
         match r.below(3) {
             0 => {
                 // (not sort_unique: it sorts unstably, and integers beyond 2^53 that collapse to one double are ties that are not `==`:
